@@ -233,6 +233,7 @@ def run(ctx):
     import c13
     c13.parse_errors_are_errors(ctx, "R05-h")
     c13.registered_modules_come_from_their_file(ctx, "R05-i")
+    c13.resolution_errors_not_overwritten(ctx, "R05-j")
 
     # R05-f (shared) ----------------------------------------------------------------------------
     import c06
